@@ -437,15 +437,46 @@ def rule_gcg(S):
              loc=loc)
 
 
+def _fold_funcs(facts):
+    """epoch_thread and the functions it reaches that fold a begin epoch into a minimum (the fold may have been
+    extracted into a helper): [(function, begin-epoch locals, blocks holding a fold)]."""
+    et = facts.one(Y + 'epoch_manager::epoch_thread')
+    out = []
+    for g in sorted(R.reachable_funcs(facts, [et]).values(), key=lambda x: x.fid):
+        if not g.blocks:
+            continue
+        be_vars = {v['id'] for n in g.all_nodes() if n['k'] == 'DeclStmt' for v in n.get('vars', [])
+                   if 'init' in v and any(is_call(x, cq=Y + 'thread_info::get_begin_epoch') for x in g.walk(v['init']))}
+        fold_blocks = set()
+        for b, blk in g.blocks.items():
+            for e in blk.elems:
+                nd = g.node(e)
+                if nd['k'] in CALL_KINDS and (nd.get('cq') or '').startswith('std::min'):
+                    for a in call_args(g, nd):
+                        aa = g.strip(a, casts=True)
+                        if (aa is not None and aa['k'] == 'DeclRefExpr' and aa.get('id') in be_vars) or \
+                                any(is_call(x, cq=Y + 'thread_info::get_begin_epoch') for x in g.walk(a)):
+                            fold_blocks.add(b)
+        if fold_blocks:
+            out.append((g, be_vars, fold_blocks))
+    return et, out
+
+
 def rule_min(S):
     facts = S.facts()
-    S.rule('R-MIN', 'epoch_thread: every value folded into the minimum begin epoch (std::min) is a begin epoch loaded '
+    S.rule('R-MIN', 'epoch_thread (and a helper it calls, if the fold was extracted): every value folded into the minimum '
+                    'begin epoch (std::min) is a begin epoch loaded '
                     'into a local and established non-zero on that path (0 marks a slot that is not in a session; '
                     'folding it in publishes gc epoch 0 - 1 = UINT64_MAX); the idle case publishes current epoch - k')
-    f = facts.one(Y + 'epoch_manager::epoch_thread')
+    _, folds = _fold_funcs(facts)
+    total = 0
+    for f, be_vars, _ in folds:
+        total += _rule_min_in(S, facts, f, be_vars)
+    S.require('R-MIN', 'minimum folds over begin epochs', total, 1)
+
+
+def _rule_min_in(S, facts, f, be_vars):
     sites = {}
-    be_vars = {v['id'] for n in f.all_nodes() if n['k'] == 'DeclStmt' for v in n.get('vars', [])
-               if 'init' in v and any(is_call(x, cq=Y + 'thread_info::get_begin_epoch') for x in f.walk(v['init']))}
 
     def step(ctx, nd, st):
         fs = R.track_assign(f, nd, st, facts)
@@ -473,12 +504,91 @@ def rule_min(S):
         return R.refine(f, blk, idx, st, ints=tuple(vname(v) for v in be_vars))
 
     Explorer(f, step, branch).run(frozenset())
-    S.require('R-MIN', 'minimum folds over begin epochs', len(sites), 1)
     for loc, e in sorted(sites.items()):
         S.ob('R-MIN', f.qname, 'std::min at ' + loc, e['ok'],
              'only non-zero begin epochs enter the minimum' if e['ok'] else
              'a begin epoch that may be 0 (slot not in a session, or between claim and publication) enters the minimum',
              loc=loc, path=e['path'])
+    return len(sites)
+
+
+def rule_walk(S):
+    facts = S.facts()
+    S.rule('R-WALK', 'epoch_thread: every publication of the GC epoch (set_gc_epoch) is reached only after a walk of the '
+                     'session table that folds the begin epochs into the minimum (or finds none) and that started after '
+                     'the most recent epoch_inc() on that path: a session that enters behind a walk made before the '
+                     'increment carries the pre-increment epoch and is not below the published value')
+    from yk.flow import dominators
+    f, folds = _fold_funcs(facts)
+    if not folds:
+        raise AnalysisBroken('R-WALK: no fold of a begin epoch into a minimum is reachable from epoch_thread')
+    helpers = {g.fid for g, _, _ in folds if g.fid != f.fid}
+    # functions through which a helper holding the fold is reached: calling one of them is a walk
+    walkers = set(helpers)
+    changed = True
+    while changed:
+        changed = False
+        for g in R.reachable_funcs(facts, [f]).values():
+            if g.fid not in walkers and g.fid != f.fid and any(c.fid in walkers for c in R.callees(facts, g)):
+                walkers.add(g.fid)
+                changed = True
+    heads = set()
+    for g, _, fold_blocks in folds:
+        if g.fid != f.fid:
+            continue
+        # innermost natural loop around each fold = the table walk; its header marks the start of a walk
+        dom = dominators(f)
+        preds = f.preds()
+        loops = []
+        for u in dom:
+            for h in f.blocks[u].succ:
+                if h is not None and h in dom.get(u, ()):
+                    body = {h, u}
+                    work = [u] if u != h else []
+                    while work:
+                        x = work.pop()
+                        for (pb, _) in preds.get(x, []):
+                            if pb not in body and pb in dom:
+                                body.add(pb)
+                                work.append(pb)
+                    loops.append((h, body))
+        for fb in fold_blocks:
+            inner = [(len(body), h) for h, body in loops if fb in body]
+            if not inner:
+                raise AnalysisBroken('R-WALK: the fold at block %s is not inside a loop' % fb)
+            heads.add(min(inner)[1])
+    sites = {}
+
+    def step(ctx, nd, st):
+        if ctx.block in heads:
+            st = 'walked'
+        if is_call(nd, cq=Y + 'epoch_management::epoch_inc'):
+            return 'inc'
+        if nd['k'] in CALL_KINDS and walkers:
+            g = facts.get(nd.get('callee'))
+            if g is not None and g.fid in walkers:
+                return 'walked'
+        if is_call(nd, cq=GC + '::set_gc_epoch'):
+            e = sites.setdefault(short_loc(nd), {'ok': True, 'path': None})
+            if st != 'walked':
+                e['ok'] = False
+                e['path'] = e['path'] or ctx.witness()
+        return st
+
+    def branch(ctx, blk, idx, st):
+        if blk.id in heads:
+            return 'walked'
+        return st
+
+    Explorer(f, step, branch).run('start')
+    n_inc = sum(1 for n in f.all_nodes() if is_call(n, cq=Y + 'epoch_management::epoch_inc'))
+    S.require('R-WALK', 'epoch increments in epoch_thread', n_inc, 1)
+    S.require('R-WALK', 'publications of the GC epoch', len(sites), 1)
+    for loc, e in sorted(sites.items()):
+        S.ob('R-WALK', f.qname, 'set_gc_epoch at ' + loc, e['ok'],
+             'the minimum was folded by a table walk that started after the last epoch increment' if e['ok'] else
+             'the GC epoch is published from a table walk made before epoch_inc() (or from none): a session that entered '
+             'behind that walk is not below the published value', loc=loc, path=e['path'])
 
 
 def rule_adv(S):
@@ -618,6 +728,7 @@ def run(S):
     rule_ret(S)
     rule_gcg(S)
     rule_min(S)
+    rule_walk(S)
     rule_adv(S)
     rule_pub(S)
     from checks import C14
@@ -625,3 +736,5 @@ def run(S):
     # mechanisms this property rests on (checks/shared.py)
     from checks import shared
     shared.sessions(S)
+    # 'keeps its contents': a stored value is never written in place (C15 R-IMM, R-ONE)
+    shared.value_words(S)
